@@ -15,6 +15,10 @@ FamAck(L, sizes) ==
 FamAll(L, sizes, chks) ==
   Numbered({ [Base(L) EXCEPT !.mode = m, !.closure = c, !.immNak = i, !.file = FileOf(n), !.chk = k] :
              m \in {"ACK", "UNACK"}, c \in BOOLEAN, i \in BOOLEAN, n \in sizes, k \in chks })
+\* acknowledged mode with the weak checksums (C01: loss / duplication / reordering only)
+FamChk(L, sizes, chks) ==
+  Numbered({ [Base(L) EXCEPT !.closure = c, !.immNak = i, !.file = FileOf(n), !.chk = k] :
+             c \in BOOLEAN, i \in BOOLEAN, n \in sizes, k \in chks })
 MdOnly(L) == Numbered({ [Base(L) EXCEPT !.mode = m, !.closure = c, !.mdOnly = TRUE, !.file = <<>>] :
                         m \in {"ACK", "UNACK"}, c \in BOOLEAN })
 PrintCfgs(set) == PrintT(<<"CFGS", set>>)
